@@ -186,11 +186,12 @@ def wrap_ca(alg, f):
             return f(*a)
         _sync()
         top = _top()
-        e = {"k": "P", "alg": alg, "top": top, "in": _box(), "en": _en(), "trunc": False, "bc": []}
+        e = {"k": "P", "alg": alg, "top": top, "in": _box(), "en": _en(), "trunc": False, "bc": [],
+             "q0": [bool(x) for x in a[14]]}
         outer_shaving = alg == 1 and C.shaving == 0
         if outer_shaving:
             e["bc"] = _plain_bc(a) or []
-            _emit({"k": "S", "d": 0, "top": top, "in": e["in"], "en": e["en"]})
+            _emit({"k": "S", "d": 0, "top": top, "in": e["in"], "en": e["en"], "q0": e["q0"]})
             C.shaving += 1
             e["d"] = 0
         else:
